@@ -63,7 +63,7 @@ def main():
                     sh('git -C /repo worktree remove --force %s' % wt)
                     save({sid: dict(property=prop, detected=None, note='patch does not apply to the current tree: ' + o2[:200])})
                 return
-            env = dict(os.environ); env['DADI_REPO'] = wt
+            env = dict(os.environ); env['DADI_REPO'] = wt; env['VERIF_PRIVATE'] = '1'   # already in a private copy
             try:
                 rc, out = sh('./check %s --tier %s' % (prop, tier), cwd=c, env=env, timeout=5400)
             finally:
